@@ -12,8 +12,18 @@ ParseConforms(s, out) ==
      /\ r.ok => /\ out.prefix = r.prefix /\ out.version = r.version /\ out.hash = r.hash
                 /\ out.reenc_ok /\ out.reenc = LowerS(s)
 
+\* string tables of prefixes and versions (growth beyond the listed properties)
+VersionNames == << <<0, <<69,100,50,53,53,49,57>> >>, <<8, <<65,108,105,97,115>> >>, <<16, <<78,70,84>> >> >>     \* Ed25519 Alias NFT
+VersionByName(n) == IF \E i \in 1..3 : VersionNames[i][2] = n THEN (CHOOSE i \in 1..3 : VersionNames[i][2] = n) ELSE 0
+TablesConform(e) ==
+  /\ e.out.panic = ""
+  /\ LET pi == PrefixIndex(e.in.s) vi == VersionByName(e.in.s)
+     IN /\ e.out.prefix_ok = (pi >= 0) /\ (pi >= 0 => e.out.prefix = pi /\ e.out.prefix_str = e.in.s)
+        /\ e.out.version_ok = (vi > 0) /\ (vi > 0 => e.out.version = VersionNames[vi][1] /\ e.out.version_str = e.in.s)
+
 Conforms(e) ==
   CASE e.op = "address.Parse" -> ParseConforms(e.in.s, e.out)
+    [] e.op = "address.tables" -> TablesConform(e)
     [] e.op = "address.Bech32" ->
          LET x == AddrString(e.in.prefix, e.in.version, e.in.hash)
          IN /\ e.out.panic = "" /\ e.out.ok = x.ok
